@@ -22,6 +22,22 @@ CHECKS = {
    technique="Lean 4 proof (induction over edit histories, refinement to set deletion) + regenerated kernel "
              "bridge + differential correspondence",
    ref="DESIGN.md §4 C02"),
+ "C16": dict(
+   text="The coded surfaces are regenerated as expression trees by symbolic execution of the current Python "
+        "source (Camelback; Lennard-Jones 2-4 atoms; Gupta Au-Ag-Au; the inherited finite-difference "
+        "gradient/Hessian on the Quadratic surface; classifier thresholds). Lean proves, about exactly those "
+        "trees: soundness of symbolic differentiation (E.sound: HasDerivAt by induction on expressions), coded "
+        "gradient/Hessian = derivatives at every point (no vanishing denominator), function_gradient = "
+        "(function, gradient), central differences exact on quadratics and off by a3*h^2 on cubics, symmetric "
+        "FD Hessian, caller array untouched, invariance of LJ/Gupta energies under every orthogonal map + "
+        "translation and exchange of like atoms, and iff-characterisations of the minimum/TS classifiers. The "
+        "generated trees are evaluated by the Lean driver at exact rationals against the real functions, and "
+        "numeric predicates cover other atom counts, Schwefel and MMFF94.",
+   note="symbolic route limited to the listed instances; O(h^2) truncation for general smooth f, MMFF94 (RDKit) "
+        "and eigvalsh are numeric/oracle only; decimal literals read as exact rationals.",
+   technique="Lean 4 proof by reflective differentiation over expression trees regenerated from the source "
+             "(symbolic execution) + exact-rational differential evaluation",
+   ref="DESIGN.md §4 C16"),
 }
 
 NOT_YET = {}
